@@ -280,6 +280,11 @@ where
     where
         S: serde::Serializer,
     {
+        // The read position and the data buffered so far do not travel with the receiver.
+        if self.bytes_read > 0 || self.current_buf.is_some() {
+            return Err(serde::ser::Error::custom("cannot serialize: reading has already started"));
+        }
+
         // The receiver must stay intact, because a value may be serialized more than once,
         // for example when it does not fit into a single buffer or when sending is retried.
         let bin_receiver = self.bin_receiver.lock().unwrap();
